@@ -142,7 +142,30 @@ def fresh_generator_check(acc, name, make):
         acc.violation(f'{name}/second-call-is-not-a-fresh-correct-circuit', case, f'first {shape1}, second {(len(n2.inputs), len(n2.outputs), len(n2.gates))}')
 
 
-def saturated_host(k):
+def decoy_host(k):
+    """k inputs and ONLY n-ary gates that contain every ordered pair of inputs among three or four operands
+    (no exact two-operand gate exists, so anything 'found' for a pair is a decoy)."""
+    from cirbo.core.circuit import Circuit, gate as G
+
+    c = Circuit()
+    ins = [f'in{i}' for i in range(k)]
+    c.add_inputs(ins)
+    cnt = 0
+    for a in ins:
+        for b in ins:
+            if a == b:
+                continue
+            for z in [i for i in ins if i not in (a, b)][:2] or [a]:
+                for t in ('AND', 'OR', 'XOR', 'NAND', 'NOR', 'NXOR'):
+                    c.emplace_gate(f'd{cnt}', getattr(G, t), (a, b, z))
+                    cnt += 1
+                    c.emplace_gate(f'd{cnt}', getattr(G, t), (z, a, z, b))
+                    cnt += 1
+    c.set_outputs([ins[0]])
+    return space.variant(c), ins
+
+
+def saturated_host(k, wide=False):
     """k inputs plus EVERY two-operand gate of every asymmetric/symmetric type over every ordered pair of
     inputs, and one more layer over (XOR(a,b), input) in both orders: a host in which any gate a generator
     is about to create probably already exists (possibly with swapped operands)."""
@@ -171,6 +194,19 @@ def saturated_host(k):
                 cnt += 1
                 c.emplace_gate(f'h{cnt}', getattr(G, t), (o, x))
                 cnt += 1
+    if wide:
+        # decoys: n-ary gates that contain a pair of operands among three or four (a generator looking for "the
+        # existing AND of a and b" must not take AND(a, b, z) for it)
+        for a in ins:
+            for b in ins:
+                if a == b:
+                    continue
+                for z in [i for i in ins if i not in (a, b)][:2] or [a]:
+                    for t in ('AND', 'OR', 'XOR', 'NAND', 'NOR', 'NXOR'):
+                        c.emplace_gate(f'h{cnt}', getattr(G, t), (a, b, z))
+                        cnt += 1
+                        c.emplace_gate(f'h{cnt}', getattr(G, t), (z, a, z, b))
+                        cnt += 1
     c.set_outputs([ins[0]])
     return space.variant(c), ins
 
